@@ -10,7 +10,8 @@ shows when a LATER program uses the same identifier in another role.  This modul
     are legitimate for it (its "probes" - every lookup the transpiler makes for a name of that role);
   * pair sessions: for EVERY ordered pair of distinct roles (a, b), with a name of its own: A = name in role a; B = the same
     name in role b with b's probes; B' = B + one probe of role a (normally rejected: a leak that makes it acceptable shows too);
-    sessions `A B B'` (all pairs in one process) against the reference session `B B'` (no A ever transpiled);
+    B" = B' + another name in role a (so that the per-call table role a creates exists in B" as well);
+    sessions `A B B' B"` (all pairs in one process) against the reference session `B B' B"` (no A ever transpiled);
   * pool sessions: programs that give 3-5 names of ONE small pool random roles, transpiled in several orders in one process and
     compared with the text each has right after a module reset / in a fresh process (adjacent leaks, counters, multi-name);
   * interleavings of parse() and emit() of different programs, and emit() of one Program object twice;
@@ -120,7 +121,9 @@ def pair_programs(rng, tier):
             out.append({"a": a, "b": b, "name": name,
                         "A": role_program([(name, a)]),
                         "B": role_program([(name, b)]),
-                        "Bf": role_program([(name, b)], foreign=(name, a, rng.randrange(8)))})
+                        "Bf": role_program([(name, b)], foreign=(name, a, rng.randrange(8))),
+                        # ... and with ANOTHER name in role a, so that whatever per-call table role a creates exists in B too
+                        "Bg": role_program([(name, b), (name + "o", a)], foreign=(name, a, rng.randrange(8)))})
     return out
 
 
@@ -135,6 +138,29 @@ def pool_programs(rng, n):
         # derived names (fn_X, acc_X ...) cannot clash: the pool names are distinct
         out.append({"assign": assign, "src": role_program(assign, probes=rng.random() < 0.85, loop=rng.random() < 0.7)})
     return out
+
+
+# programs that are REJECTED half-way, at a point where the parser is inside a function body / a loop / a branch / a callback /
+# a try block: whatever flag or registry entry it has set by then must not survive the exception
+POISON = [
+    "def {X}():\n    y_ = nodev_.read()\n    return y_\n",
+    "{X} = Led(13)\nwhile True:\n    {X}.toggle()\n    y_ = nodev_.measure_distance()\n",
+    "{X} = 1\nfor i_ in range(3):\n    if i_ > 1:\n        {X} = nodev_.read_us()\n",
+    "{X} = SerialMonitor(9600)\ntry:\n    z_ = nodev_.get_state()\nexcept Exception:\n    sleep(1)\n",
+    "def {X}(a, b):\n    return a + b\nq_ = {X}(1, 2)\nr_ = [k_ * 2 for k_ in q_]\n",
+    "{X} = [1, 2]\n{X}.append(3)\nw_ = {X}.nosuch(1)\n",
+    "def cb_{X}():\n    y_ = nodev_.is_pressed()\n{X} = Button(4, on_click=cb_{X})\n",
+    "{X}, o_ = 1, 2\n{X}, o_ = o_, {X}\nv_ = nodev_.get_brightness()\n",
+    "{X} = Servo(9)\n{X}.write(\n",
+    "{X} = Potentiometer(\"A0\")\nif {X}.read() > 3:\n    u_ = {X}.read(1, 2)\n",
+    "{X} = Ultrasonic(7, 8)\nwhile True:\n    d_ = {X}.measure_distance(5)\n",
+    "{X} = LCD(i2c_addr=0x27, cols=16, rows=2)\n{X}.animate(\"nosuch\", 0, \"t\")\nwhile True:\n    sleep(1)\n",
+]
+
+
+def poison_programs(rng):
+    return [{"assign": [(x, "poison")], "src": IMPORTS + t.replace("{X}", x), "poison": True}
+            for t in POISON for x in [rng.choice(POOL)]]
 
 
 # ---------------------------------------------------------------------------------------------------------
@@ -263,22 +289,24 @@ def run_collisions(ctx, C, seed, have_model):
     sources, idx = [], []
     for p in pairs:
         base = len(sources)
-        sources += [p["A"], p["B"], p["Bf"]]
+        sources += [p["A"], p["B"], p["Bf"], p["Bg"]]
         idx.append(base)
-    ref = run_ops(C, sources, [op for b in idx for op in (["t", b + 1], ["t", b + 2])], seed)
-    s1 = run_ops(C, sources, [op for b in idx for op in (["t", b], ["t", b + 1], ["t", b + 2])], seed)
+    ref = run_ops(C, sources, [op for b in idx for op in (["t", b + 1], ["t", b + 2], ["t", b + 3])], seed)
+    s1 = run_ops(C, sources, [op for b in idx for op in (["t", b], ["t", b + 1], ["t", b + 2], ["t", b + 3])], seed)
     order2 = list(reversed(range(len(idx))))
-    s2 = run_ops(C, sources, [["t", b] for b in idx] + [op for k in order2 for op in (["t", idx[k] + 1], ["t", idx[k] + 2])], seed)
+    pos2 = {k: j for j, k in enumerate(order2)}
+    s2 = run_ops(C, sources, [["t", b] for b in idx] + [op for k in order2 for op in (["t", idx[k] + 1], ["t", idx[k] + 2], ["t", idx[k] + 3])], seed)
     n_rej_foreign = 0
     for k, (p, b) in enumerate(zip(pairs, idx)):
-        rB, rBf = ref[2 * k], ref[2 * k + 1]
+        rB, rBf, rBg = ref[3 * k], ref[3 * k + 1], ref[3 * k + 2]
         if not rB["ok"]:
             ctx.disagree("role program rejected by the transpiler (generator bug)", p["B"], None, rB)
         n_rej_foreign += 0 if rBf["ok"] else 1
-        got = {"B": [s1[3 * k + 1], s2[len(idx) + 2 * order2.index(k)]], "Bf": [s1[3 * k + 2], s2[len(idx) + 2 * order2.index(k) + 1]]}
-        if not s1[3 * k]["ok"]:
-            ctx.disagree("role program rejected by the transpiler (generator bug)", p["A"], None, s1[3 * k])
-        for which, r0 in (("B", rB), ("Bf", rBf)):
+        o2 = len(idx) + 3 * pos2[k]
+        got = {"B": [s1[4 * k + 1], s2[o2]], "Bf": [s1[4 * k + 2], s2[o2 + 1]], "Bg": [s1[4 * k + 3], s2[o2 + 2]]}
+        if not s1[4 * k]["ok"]:
+            ctx.disagree("role program rejected by the transpiler (generator bug)", p["A"], None, s1[4 * k])
+        for which, r0 in (("B", rB), ("Bf", rBf), ("Bg", rBg)):
             for r in got[which]:
                 evaluations += 1
                 if r["sha"] != r0["sha"]:
@@ -287,7 +315,8 @@ def run_collisions(ctx, C, seed, have_model):
                            f"name in role `{p['a']}` was transpiled in the same process",
                            "name-collision", [[p["A"]], [q["A"] for q in pairs[: k + 1]]], p[which],
                            {"name": p["name"], "role_in_the_earlier_program": p["a"], "role_in_this_program": p["b"],
-                            "origin": "role pair" + (" + one probe of the earlier role" if which == "Bf" else "")}, budget)
+                            "origin": "role pair" + {"B": "", "Bf": " + one probe of the earlier role",
+                                                     "Bg": " + another name in the earlier role + one probe of the earlier role"}[which]}, budget)
                     break
     nontrivial += len(pairs)
     dist["role_pairs"] = len(pairs)
@@ -295,7 +324,7 @@ def run_collisions(ctx, C, seed, have_model):
     dist["role_pair_programs_with_a_foreign_probe_rejected_when_alone"] = n_rej_foreign
 
     # ------------------------------------------------------------------ pool programs: few names, random roles, several orders
-    pool = pool_programs(rng, 240 if thorough else 60)
+    pool = pool_programs(rng, 240 if thorough else 60) + poison_programs(rng)
     psrc = [p["src"] for p in pool]
     n = len(psrc)
     fwd = list(range(n))
@@ -317,13 +346,17 @@ def run_collisions(ctx, C, seed, have_model):
     rs = run_ops(C, psrc, [op for i in reset_idx for op in (["reset"], ["t", i])], seed)
     res_reset = {i: rs[2 * k + 1] for k, i in enumerate(reset_idx)}
     role_hist = {}
+    poison_kinds = {}
     for p in pool:
         for _x, r in p["assign"]:
             role_hist[r] = role_hist.get(r, 0) + 1
     for i in fwd:
         r0 = res_reset.get(i, res["forward"][i])
-        if not res["forward"][i]["ok"]:
+        if not res["forward"][i]["ok"] and not pool[i].get("poison"):
             ctx.disagree("pool program rejected by the transpiler (generator bug)", psrc[i], None, res["forward"][i])
+        if pool[i].get("poison"):
+            k_ = "accepted" if res["forward"][i]["ok"] else res["forward"][i].get("exc", "?")
+            poison_kinds[k_] = poison_kinds.get(k_, 0) + 1
         for name, o in orders.items():
             evaluations += 1
             if res[name][i]["sha"] != r0["sha"]:
@@ -340,6 +373,7 @@ def run_collisions(ctx, C, seed, have_model):
     dist["pool_orders"] = sorted(orders)
     dist["pool_programs_compared_with_a_module_reset"] = len(reset_idx)
     dist["pool_role_histogram"] = role_hist
+    dist["pool_programs_rejected_half_way(outcome)"] = poison_kinds
 
     # ------------------------------------------------------------------ parse() / emit() interleavings, emit() twice
     n_il = 60 if thorough else 16
